@@ -90,6 +90,20 @@ def DenyMsg.priv : DenyMsg → Nat
   | .uploadFolderAnywhere => Priv.uploadAnywhere | .uploadFileAnywhere => Priv.uploadAnywhere
   | .viewDropBoxes => Priv.viewDropBoxes | .privateChat => Priv.openChat | .makeAliases => Priv.makeAlias
 
+/-- every denial text of the model -/
+def DenyMsg.all : List DenyMsg := [
+  .chat, .privMsg, .setFolderComment, .setFileComment, .renameFolder, .renameFile, .deleteFolder, .deleteFile,
+  .moveFolder, .moveFile, .createFolder, .modifyAccounts, .viewAccounts, .deleteAccounts, .createAccounts,
+  .broadcast, .clientInfo, .postNews, .disconnect, .readNews, .createNewsCat, .createNewsFldr, .deleteNewsCat,
+  .deleteNewsFldr, .deleteNewsArt, .postNewsArt, .downloadFiles, .downloadFolders, .uploadFolders, .uploadFiles,
+  .uploadFolderAnywhere, .uploadFileAnywhere, .viewDropBoxes, .privateChat, .makeAliases]
+
+/-- how the message appears in the Go source (`Generated.denyMessages`): the literal, or the `fmt.Sprintf` expression -/
+def DenyMsg.source : DenyMsg → String
+  | .uploadFolderAnywhere => "expr:fmt.Sprintf(\"Cannot accept upload of the folder \\\"%v\\\" because you are only allowed to upload to the \\\"Uploads\\\" folder.\", string(t.GetField(FieldFileName).Data))"
+  | .uploadFileAnywhere => "expr:fmt.Sprintf(\"Cannot accept upload of the file \\\"%v\\\" because you are only allowed to upload to the \\\"Uploads\\\" folder.\", string(fileName))"
+  | m => m.text
+
 /-- refusals by a rule other than "the requester lacks the governing privilege" -/
 inductive Refusal
   | amplification    -- "Cannot create account with more access than yourself."
@@ -306,7 +320,7 @@ def run (acc : AccessBitmap) : Req → Result
   | .getFileInfo t =>
     (match t with
      | .badPath => silent | .root => refuse .nothingNamed "Cannot get info because no file or folder was named."
-     | .missing => silent | _ => proceed [])
+     | _ => proceed [])   -- a missing target is answered with default information (NewFileWrapper does not fail)
   | .setFileInfo t comment rename =>
     (match t with
      | .badPath => silent
@@ -338,7 +352,7 @@ def run (acc : AccessBitmap) : Req → Result
     guard acc Priv.downloadFile .downloadFiles
       (match t with
        | .badPath => silent | .root => refuse .nothingNamed "Cannot download because no file was named."
-       | .missing => silent | _ => proceed [.downloadFile])
+       | _ => proceed [.downloadFile])   -- also for a missing file: a (zero-size) transfer is registered
   | .downloadFldr t =>
     guard acc Priv.downloadFolder .downloadFolders
       (match t with | .badPath => silent | .missing => silent | _ => proceed [.downloadFolder])
